@@ -34,6 +34,10 @@ TEMPLATES = [
     "F takes X\nsay X\n\nsay F taking 1\n",
     "Deep takes N\nif N is 0\ngive back 0\n\ngive back 1 plus Deep taking N minus 1\n\nsay Deep taking 50\n",
     "the function takes my arg and Your Other Arg\ngive back my arg with Your Other Arg\n\nsay the function taking 1, 2\nsay THE FUNCTION taking \"a\", \"b\"\n",
+    "Shower takes Y\nSay it\nGive back Y\n\nX is 3\nSay Shower taking X\n",
+    "Shower takes Y\nbuild it up\nGive back Y\n\nX is 3\nSay Shower taking 5\nSay X\n",
+    "Shower takes Y, Z\nSay it\nput it into W\nGive back W\n\nX is 3\nQ is 4\nSay Shower taking X, Q\nSay Shower taking 1, 2\n",
+    "Outer takes A\nsay it\nput Inner taking A into B\nsay it\ngive back B\n\nInner takes C\nsay it\ngive back C\n\nX is 3\nsay Outer taking X\nsay it\n",
     # empty bodies (a function, a branch, a loop that ends at once): the scope protocol still runs, the pronoun is cleared
     "Idle takes X\n\n\nput 5 into Y\nIdle taking 1\nshout it\n",
     "Idle takes X\n\n\nput 5 into Y\nsay Idle taking 1\nput 9 into it\nsay Y\n",
@@ -82,6 +86,9 @@ def run(chk):
     quick = chk.tier == "quick"
     cases = [{"src": t, "meta": "template"} for t in TEMPLATES] + shadowing_cases()
     cases += [{"src": c["src"], "meta": c.get("note")} for c in corpus_cases("exec")]
+    # the pronoun after every statement form, in every placement
+    from . import gen_pronoun
+    cases += [{"src": c["src"], "stdin": c["stdin"], "meta": "pronoun " + c["meta"]["wrap"]} for c in gen_pronoun.programs(quick, rng_for(chk, 5))]
     recs = execsuite.run(chk, cases, "tmpl", suite_name="EXEC-templates")
     record_exec(chk, recs, sig=lambda r: (r["case"]["src"][:60], r["impl"].get("debug", "")[:60]))
     gen = exec_cases(chk, 350 if quick else 4000, focus={"func": 4, "callstmt": 3, "if": 2.5, "loop": 2, "assign": 6, "say": 6}, salt=55)
@@ -90,6 +97,7 @@ def run(chk):
     chk.rule = ("hand-written scope/call/pronoun templates (recursion, return from nested loops/ifs, call by value for scalars and "
                 "arrays, block locals, argument order with printing callees, pronoun after block/call end, arity and kind errors, "
                 "name shadowing between parameters/locals and outer functions; empty function / branch / loop bodies followed by a pronoun; parameters named like the caller's variables with the "
-                "arguments in every order and form: variable, subscript, nested call, negation, pronoun) plus generated programs with functions; compared: "
+                "arguments in every order and form: variable, subscript, nested call, negation, pronoun; 62 statement forms x 10 placements "
+                "(top level, start / end of a block or function body, after the block or call, as an argument) followed by a use of the pronoun) plus generated programs with functions; compared: "
                 "stdout bytes + outcome in debug and release")
     conclude(chk, "C05", proved)
